@@ -124,24 +124,34 @@ def ensure_facts(repo=None, force=False):
         h = tree_hash(repo)
         d = os.path.join(WORK, "facts", h)
         done = os.path.join(d, "DONE")
-        if force and os.path.isdir(d):
-            shutil.rmtree(d)
-        if not os.path.exists(done):
-            if os.path.isdir(d):
-                shutil.rmtree(d)
-            os.makedirs(d)
-            t0 = time.time()
-            extract_mir(repo, os.path.join(d, "mir.json"))
-            if os.path.exists(GRAMFACTS):
-                extract_gram(repo, os.path.join(d, "gram.json"))
-            extract_src(repo, os.path.join(d, "src.json"))
-            # the tree must not have changed while we were extracting
-            if tree_hash(repo) != h:
-                shutil.rmtree(d)
-                raise ExtractionError("tree changed during extraction")
-            with open(done, "w") as fh:
-                fh.write("%.1f\n" % (time.time() - t0))
-            prune_facts(keep=10, current=h)
+        if force or not os.path.exists(done):
+            # extract into a scratch directory and move the files into place one by one (atomic renames): a check that
+            # is reading this tree's facts in parallel (same hash = same content) never sees a missing or half-written file
+            tmp = os.path.join(WORK, "facts", ".tmp-%s-%s" % (h, uuid.uuid4().hex[:8]))
+            os.makedirs(tmp)
+            try:
+                t0 = time.time()
+                extract_mir(repo, os.path.join(tmp, "mir.json"))
+                if os.path.exists(GRAMFACTS):
+                    extract_gram(repo, os.path.join(tmp, "gram.json"))
+                extract_src(repo, os.path.join(tmp, "src.json"))
+                # the tree must not have changed while we were extracting
+                if tree_hash(repo) != h:
+                    raise ExtractionError("tree changed during extraction")
+                os.makedirs(d, exist_ok=True)
+                for fn in os.listdir(tmp):
+                    os.replace(os.path.join(tmp, fn), os.path.join(d, fn))
+                with open(done + ".tmp", "w") as fh:
+                    fh.write("%.1f\n" % (time.time() - t0))
+                os.replace(done + ".tmp", done)
+            finally:
+                shutil.rmtree(tmp, ignore_errors=True)
+            prune_facts(keep=16, current=h)
+        else:
+            try:
+                os.utime(d, None)   # in use: keep it away from pruning
+            except OSError:
+                pass
         return d
 
 
@@ -149,8 +159,10 @@ def prune_facts(keep, current):
     base = os.path.join(WORK, "facts")
     ds = [os.path.join(base, x) for x in os.listdir(base) if os.path.isdir(os.path.join(base, x))]
     ds.sort(key=lambda p: os.path.getmtime(p), reverse=True)
+    now = time.time()
     for p in ds[keep:]:
-        if os.path.basename(p) != current:
+        # never a directory that was used in the last 20 minutes (another check may be reading it) nor the current one
+        if os.path.basename(p) != current and now - os.path.getmtime(p) > 1200:
             shutil.rmtree(p, ignore_errors=True)
 
 
